@@ -3,9 +3,11 @@ package iterdrv
 // Conformance harness for trait/seq and trait/pair (properties C14, C15).
 //
 // An expression tree (the JSON form printed by spec/seq/IterGen.tla / PairIterGen.tla) is interpreted over the real
-// combinators: items are int (seq kind) or (int key, int value) (pair kind); predicates, mappings and flat-map
+// combinators: items are int (seq kind) or (int key, int value) (pair kind) in the model, and are carried into the Go
+// element type (int, any, *box - see "element types" below) by a codec; predicates, mappings and flat-map
 // functions are looked up by name in the fixed tables below, which repeat the tables of Iter.tla / PairIter.tla
-// (TLC prints its tables once per run and checkTables compares them - a difference is a harness error, not a verdict).
+// (TLC prints its tables once per run and checkTables compares them - a difference is a harness error, not a verdict)
+// and always work on the model's integers.
 //
 //	VERIF_MODE=replay  VERIF_IN=<cases.jsonl from TLC>  VERIF_OUT=<findings.jsonl>          (replay_test.go)
 //	VERIF_MODE=random  VERIF_SEED VERIF_N VERIF_DEPTH VERIF_KIND VERIF_OUT=<traces.jsonl>   (random_test.go)
@@ -256,13 +258,115 @@ func callsEq(a, b []call) bool {
 	return true
 }
 
-type source struct{ orig, live []int }
+// ---------------------------------------------------------------------------- element types
+//
+// The combinators are generic; the model's items are integers.  A codec carries the integers of a case into a Go
+// element type and back, so that every case also runs over element types that have a nil value (a nil interface, a nil
+// pointer): one integer Z of the model is coded as nil.  Everything the harness compares (drained lists, ForEach
+// visits, the call log, the source slices) is compared after decoding, i.e. in the model's integers.
+
+type box struct{ v int }
+
+// undecodable is what dec answers for a Go value that no integer is coded as (it then shows up in the compared list).
+const undecodable = -1000003
+
+type codec[T any] struct {
+	name  string
+	enc   func(int) T
+	dec   func(T) int
+	isNil func(T) bool
+}
+
+func intCodec() codec[int] {
+	return codec[int]{name: "int", enc: func(x int) int { return x }, dec: func(x int) int { return x }, isNil: func(int) bool { return false }}
+}
+
+// anyCodec: z -> nil interface; other odd values -> the int itself in the interface; other even values -> *box{v}
+// (the interface holds different dynamic types).  Injective: z is the only integer coded as nil, an int codes itself,
+// a *box its content; 0 is even and is coded as &box{0} (unless it is z).
+func anyCodec(z int) codec[any] {
+	return codec[any]{
+		name: fmt.Sprintf("any/nil=%d", z),
+		enc: func(x int) any {
+			switch {
+			case x == z:
+				return nil
+			case x%2 != 0:
+				return x
+			}
+			return &box{x}
+		},
+		dec: func(t any) int {
+			switch u := t.(type) {
+			case nil:
+				return z
+			case int:
+				if u != z && u%2 != 0 {
+					return u
+				}
+			case *box:
+				if u != nil && u.v != z && u.v%2 == 0 {
+					return u.v
+				}
+			}
+			return undecodable
+		},
+		isNil: func(t any) bool { return t == nil },
+	}
+}
+
+// boxCodec: z -> nil pointer; other values -> &box{v}.
+func boxCodec(z int) codec[*box] {
+	return codec[*box]{
+		name: fmt.Sprintf("*box/nil=%d", z),
+		enc: func(x int) *box {
+			if x == z {
+				return nil
+			}
+			return &box{x}
+		},
+		dec: func(t *box) int {
+			switch {
+			case t == nil:
+				return z
+			case t.v == z:
+				return undecodable
+			}
+			return t.v
+		},
+		isNil: func(t *box) bool { return t == nil },
+	}
+}
+
+// ---------------------------------------------------------------------------- interpretation over the real combinators
+
+// source is one slice handed to FromSlice: the whole backing array as it was made and as it is now (decoded), and the
+// second iterator over the same array (never drained: the array is a source slice of another expression, too).
+type source struct {
+	orig  []int
+	live  func() []int
+	spare bool
+	other any
+}
+
+// sentinels fill the spare capacity behind the window of a source slice.
+var sentinels = []int{-7, -8, -9}
 
 // env accompanies one construction: the calls the library makes and the slices handed to FromSlice.
 type env struct {
 	calls []call
 	srcs  []source
+	// layout of the source slices: bit (i mod 2) of mode says how the i-th slice of this construction is laid out -
+	// 0: a window backing[:n] of an array of n+3 elements (spare capacity; the tail holds sentinels and the whole array
+	// is the source of a second iterator), 1: an array of exactly n elements
+	mode int
+	nils int // nil elements met: coded for the library or decoded from what the library delivered
 }
+
+const (
+	layoutSpare = 0 // every source slice is a window with spare capacity
+	layoutExact = 3 // every source slice has len = cap (the layout of a slice literal)
+)
 
 func (v *env) log(f string, a ...int) { v.calls = append(v.calls, call{F: f, A: item(a)}) }
 
@@ -271,26 +375,17 @@ func (v *env) since(mark int) []call { return append([]call{}, v.calls[mark:]...
 
 func (v *env) sourcesIntact() bool {
 	for _, s := range v.srcs {
-		if len(s.orig) != len(s.live) {
+		live := s.live()
+		if len(s.orig) != len(live) {
 			return false
 		}
 		for i := range s.orig {
-			if s.orig[i] != s.live[i] {
+			if s.orig[i] != live[i] {
 				return false
 			}
 		}
 	}
 	return true
-}
-
-func (v *env) pred(name string) func(int) bool {
-	f := lookup(seqPreds, "predicate", name)
-	return func(x int) bool { v.log(name, x); return f(x) }
-}
-
-func (v *env) ppred(name string) func(int, int) bool {
-	f := lookup(pairPreds, "pair predicate", name)
-	return func(k, x int) bool { v.log(name, k, x); return f(k, x) }
 }
 
 // either is the expression-valued function of joinx: A where the selecting predicate holds, B otherwise.
@@ -301,52 +396,111 @@ func either(holds bool, e *Expr) *Expr {
 	return e.B
 }
 
-func (v *env) buildSeq(e *Expr) seq.Seq[int] {
+// bld interprets expressions over the element type T: keys and values of pairs are both T.
+type bld[T any] struct {
+	v *env
+	c codec[T]
+}
+
+func (b bld[T]) enc(x int) T {
+	t := b.c.enc(x)
+	if b.c.isNil(t) {
+		b.v.nils++
+	}
+	return t
+}
+
+func (b bld[T]) dec(t T) int {
+	if b.c.isNil(t) {
+		b.v.nils++
+	}
+	return b.c.dec(t)
+}
+
+// source lays xs out as the env's mode says and returns the slice for FromSlice.
+func (b bld[T]) source(xs []int) []T {
+	v := b.v
+	n := len(xs)
+	spare := (v.mode>>(len(v.srcs)%2))&1 == 0
+	orig := append([]int{}, xs...)
+	if spare {
+		orig = append(orig, sentinels...)
+	}
+	backing := make([]T, len(orig))
+	for i, x := range orig {
+		backing[i] = b.enc(x)
+	}
+	dec := b.c.dec
+	v.srcs = append(v.srcs, source{orig: orig, spare: spare, other: seq.FromSlice(backing), live: func() []int {
+		out := make([]int, len(backing))
+		for i, t := range backing {
+			out[i] = dec(t)
+		}
+		return out
+	}})
+	return backing[:n]
+}
+
+func (b bld[T]) pred(name string) func(T) bool {
+	f := lookup(seqPreds, "predicate", name)
+	return func(t T) bool { x := b.dec(t); b.v.log(name, x); return f(x) }
+}
+
+func (b bld[T]) ppred(name string) func(T, T) bool {
+	f := lookup(pairPreds, "pair predicate", name)
+	return func(kt, t T) bool { k, x := b.dec(kt), b.dec(t); b.v.log(name, k, x); return f(k, x) }
+}
+
+func (b bld[T]) seq(e *Expr) seq.Seq[T] {
 	if e == nil {
 		panic(harnessBug("missing sub-expression"))
 	}
+	v := b.v
 	switch e.Op {
 	case "nil":
 		return nil
 	case "slice":
-		live := append([]int{}, e.Xs...)
-		v.srcs = append(v.srcs, source{orig: append([]int{}, e.Xs...), live: live})
-		return seq.FromSlice(live)
+		return seq.FromSlice(b.source(e.Xs))
 	case "from":
-		return seq.From(e.X)
+		return seq.From(b.enc(e.X))
 	case "tw":
-		return seq.TakeWhile(v.buildSeq(e.E), v.pred(e.P))
+		return seq.TakeWhile(b.seq(e.E), b.pred(e.P))
 	case "dw":
-		return seq.DropWhile(v.buildSeq(e.E), v.pred(e.P))
+		return seq.DropWhile(b.seq(e.E), b.pred(e.P))
 	case "flt":
-		return seq.Filter(v.buildSeq(e.E), v.pred(e.P))
+		return seq.Filter(b.seq(e.E), b.pred(e.P))
 	case "map":
 		f := lookup(seqMaps, "mapping", e.M)
-		return seq.Map(v.buildSeq(e.E), func(x int) int { v.log(e.M, x); return f(x) })
+		return seq.Map(b.seq(e.E), func(t T) T { x := b.dec(t); v.log(e.M, x); return b.enc(f(x)) })
 	case "plus":
-		l := v.buildSeq(e.L)
-		r := v.buildSeq(e.R)
+		l := b.seq(e.L)
+		r := b.seq(e.R)
 		return seq.Plus(l, r)
 	case "join":
 		f := lookup(seqJoins, "flat-map function", e.J)
-		return seq.Join(v.buildSeq(e.E), func(x int) seq.Seq[int] { v.log(e.J, x); return v.buildSeq(f(x)) })
+		return seq.Join(b.seq(e.E), func(t T) seq.Seq[T] { x := b.dec(t); v.log(e.J, x); return b.seq(f(x)) })
 	case "joinx":
 		sel := lookup(seqPreds, "predicate", e.P)
-		return seq.Join(v.buildSeq(e.E), func(x int) seq.Seq[int] { v.log("joinx", x); return v.buildSeq(either(sel(x), e)) })
+		return seq.Join(b.seq(e.E), func(t T) seq.Seq[T] { x := b.dec(t); v.log("joinx", x); return b.seq(either(sel(x), e)) })
 	case "toseqx":
 		sel := lookup(pairPreds, "pair predicate", e.P)
-		return pair.ToSeq(v.buildPair(e.E), func(k, x int) seq.Seq[int] { v.log("joinx", k, x); return v.buildSeq(either(sel(k, x), e)) })
+		return pair.ToSeq(b.pair(e.E), func(kt, t T) seq.Seq[T] {
+			k, x := b.dec(kt), b.dec(t)
+			v.log("joinx", k, x)
+			return b.seq(either(sel(k, x), e))
+		})
 	case "toseq":
 		f := lookup(toSeqJoins, "ToSeq function", e.J)
-		return pair.ToSeq(v.buildPair(e.E), func(k, x int) seq.Seq[int] { v.log(e.J, k, x); return v.buildSeq(f(k, x)) })
+		return pair.ToSeq(b.pair(e.E), func(kt, t T) seq.Seq[T] { k, x := b.dec(kt), b.dec(t); v.log(e.J, k, x); return b.seq(f(k, x)) })
 	}
 	panic(harnessBug(fmt.Sprintf("op %q does not give a seq.Seq", e.Op)))
 }
 
-func (v *env) buildPair(e *Expr) pair.Seq[int, int] {
+func (b bld[T]) pair(e *Expr) pair.Seq[T, T] {
 	if e == nil {
 		panic(harnessBug("missing sub-expression"))
 	}
+	v := b.v
 	switch e.Op {
 	case "nil":
 		return nil
@@ -354,68 +508,79 @@ func (v *env) buildPair(e *Expr) pair.Seq[int, int] {
 		if len(e.KV) != 2 {
 			panic(harnessBug("pfrom needs [k, v]"))
 		}
-		return pair.From(e.KV[0], e.KV[1])
+		return pair.From(b.enc(e.KV[0]), b.enc(e.KV[1]))
 	case "tw":
-		return pair.TakeWhile(v.buildPair(e.E), v.ppred(e.P))
+		return pair.TakeWhile(b.pair(e.E), b.ppred(e.P))
 	case "dw":
-		return pair.DropWhile(v.buildPair(e.E), v.ppred(e.P))
+		return pair.DropWhile(b.pair(e.E), b.ppred(e.P))
 	case "flt":
-		return pair.Filter(v.buildPair(e.E), v.ppred(e.P))
+		return pair.Filter(b.pair(e.E), b.ppred(e.P))
 	case "map":
 		f := lookup(pairMaps, "pair mapping", e.M)
-		return pair.Map(v.buildPair(e.E), func(k, x int) int { v.log(e.M, k, x); return f(k, x) })
+		return pair.Map(b.pair(e.E), func(kt, t T) T { k, x := b.dec(kt), b.dec(t); v.log(e.M, k, x); return b.enc(f(k, x)) })
 	case "plus":
-		l := v.buildPair(e.L)
-		r := v.buildPair(e.R)
+		l := b.pair(e.L)
+		r := b.pair(e.R)
 		return pair.Plus(l, r)
 	case "join":
 		f := lookup(pairJoins, "pair flat-map function", e.J)
-		return pair.Join(v.buildPair(e.E), func(k, x int) pair.Seq[int, int] { v.log(e.J, k, x); return v.buildPair(f(k, x)) })
+		return pair.Join(b.pair(e.E), func(kt, t T) pair.Seq[T, T] { k, x := b.dec(kt), b.dec(t); v.log(e.J, k, x); return b.pair(f(k, x)) })
 	case "joinx":
 		sel := lookup(pairPreds, "pair predicate", e.P)
-		return pair.Join(v.buildPair(e.E), func(k, x int) pair.Seq[int, int] { v.log("joinx", k, x); return v.buildPair(either(sel(k, x), e)) })
+		return pair.Join(b.pair(e.E), func(kt, t T) pair.Seq[T, T] {
+			k, x := b.dec(kt), b.dec(t)
+			v.log("joinx", k, x)
+			return b.pair(either(sel(k, x), e))
+		})
 	case "fromseqx":
 		sel := lookup(seqPreds, "predicate", e.P)
-		return pair.FromSeq(v.buildSeq(e.E), func(x int) pair.Seq[int, int] { v.log("joinx", x); return v.buildPair(either(sel(x), e)) })
+		return pair.FromSeq(b.seq(e.E), func(t T) pair.Seq[T, T] { x := b.dec(t); v.log("joinx", x); return b.pair(either(sel(x), e)) })
 	case "fromseq":
 		f := lookup(fromSeqJoins, "FromSeq function", e.J)
-		return pair.FromSeq(v.buildSeq(e.E), func(x int) pair.Seq[int, int] { v.log(e.J, x); return v.buildPair(f(x)) })
+		return pair.FromSeq(b.seq(e.E), func(t T) pair.Seq[T, T] { x := b.dec(t); v.log(e.J, x); return b.pair(f(x)) })
 	}
 	panic(harnessBug(fmt.Sprintf("op %q does not give a pair.Seq", e.Op)))
 }
 
 // ---------------------------------------------------------------------------- observing an iterator
 
-// cursor hides the kind: what the documented loop needs, plus Key() read again after Value() for pairs.
+// cursor hides the kind and the element type: what the documented loop needs (decoded), plus Key() read again after
+// Value() for pairs.
 type cursor interface {
 	value() (it item, keyAfter int)
 	next() bool
 }
 
-type seqCursor struct{ s seq.Seq[int] }
-
-func (c seqCursor) value() (item, int) { return item{c.s.Value()}, 0 }
-func (c seqCursor) next() bool         { return c.s.Next() }
-
-type pairCursor struct{ s pair.Seq[int, int] }
-
-func (c pairCursor) value() (item, int) {
-	k := c.s.Key()
-	x := c.s.Value()
-	return item{k, x}, c.s.Key()
+type seqCursor[T any] struct {
+	s seq.Seq[T]
+	b bld[T]
 }
-func (c pairCursor) next() bool { return c.s.Next() }
+
+func (c seqCursor[T]) value() (item, int) { return item{c.b.dec(c.s.Value())}, 0 }
+func (c seqCursor[T]) next() bool         { return c.s.Next() }
+
+type pairCursor[T any] struct {
+	s pair.Seq[T, T]
+	b bld[T]
+}
+
+func (c pairCursor[T]) value() (item, int) {
+	k := c.b.dec(c.s.Key())
+	x := c.b.dec(c.s.Value())
+	return item{k, x}, c.b.dec(c.s.Key())
+}
+func (c pairCursor[T]) next() bool { return c.s.Next() }
 
 // build constructs the iterator for e; nil cursor = nil iterator.
-func (v *env) build(kind string, e *Expr) cursor {
+func (b bld[T]) build(kind string, e *Expr) cursor {
 	if kind == "pair" {
-		if s := v.buildPair(e); s != nil {
-			return pairCursor{s}
+		if s := b.pair(e); s != nil {
+			return pairCursor[T]{s, b}
 		}
 		return nil
 	}
-	if s := v.buildSeq(e); s != nil {
-		return seqCursor{s}
+	if s := b.seq(e); s != nil {
+		return seqCursor[T]{s, b}
 	}
 	return nil
 }
@@ -447,6 +612,30 @@ type observation struct {
 	Truncated bool      `json:"truncated"` // gave up after `limit` steps
 	Panic     string    `json:"panic"`     // the library panicked while constructing / draining
 	SrcOK     bool      `json:"srcok"`
+	Src       []srcObs  `json:"-"` // the source slices that differ from what they were
+	Nils      int       `json:"-"` // nil elements met up to the end of the documented loop
+}
+
+// srcObs is one modified source slice: the whole backing array (window + sentinels when it has spare capacity).
+type srcObs struct {
+	Spare bool  `json:"spare"`
+	Was   []int `json:"was"`
+	Is    []int `json:"is"`
+}
+
+func (v *env) modified() []srcObs {
+	out := []srcObs{}
+	for _, s := range v.srcs {
+		live := s.live()
+		same := len(live) == len(s.orig)
+		for i := 0; same && i < len(live); i++ {
+			same = live[i] == s.orig[i]
+		}
+		if !same {
+			out = append(out, srcObs{Spare: s.spare, Was: s.orig, Is: live})
+		}
+	}
+	return out
 }
 
 func (o *observation) values() []item {
@@ -464,33 +653,43 @@ func recovered(r any) string {
 	return fmt.Sprint(r)
 }
 
-func observe(kind string, e *Expr, limit int) (o observation) {
-	v := &env{}
+// observe: element type int, every source slice with len = cap.
+func observe(kind string, e *Expr, limit int) observation {
+	return observeT(intCodec(), layoutExact, kind, e, limit)
+}
+
+func observeT[T any](c codec[T], mode int, kind string, e *Expr, limit int) (o observation) {
+	v := &env{mode: mode}
+	b := bld[T]{v: v, c: c}
 	o.Cc, o.Steps, o.Post, o.Repoll = []call{}, []stepObs{}, postObs{V: item{0}}, "none"
-	var c cursor
+	var cur cursor
 	func() {
 		defer func() {
 			if r := recover(); r != nil {
 				o.Panic = recovered(r)
 			}
 		}()
-		c = v.build(kind, e)
+		cur = b.build(kind, e)
 		o.Cc = v.since(0)
-		o.Nil = c == nil
-		for has := c != nil; has; {
+		o.Nil = cur == nil
+		for has := cur != nil; has; {
 			if len(o.Steps) >= limit {
 				o.Truncated = true
 				return
 			}
 			m0 := len(v.calls)
-			it, k2 := c.value()
+			it, k2 := cur.value()
 			m1 := len(v.calls)
-			has = c.next()
+			has = cur.next()
 			o.Steps = append(o.Steps, stepObs{V: it, Ok: has, Vc: v.since(m0)[:m1-m0], Nc: v.since(m1), K2: k2})
 		}
 	}()
 	o.SrcOK = v.sourcesIntact()
-	if c != nil && o.Panic == "" && !o.Truncated {
+	if !o.SrcOK {
+		o.Src = v.modified()
+	}
+	o.Nils = v.nils
+	if cur != nil && o.Panic == "" && !o.Truncated {
 		func() {
 			defer func() {
 				if r := recover(); r != nil {
@@ -498,7 +697,7 @@ func observe(kind string, e *Expr, limit int) (o observation) {
 					o.Post = postObs{Panic: true, V: item{0}}
 				}
 			}()
-			it, _ := c.value()
+			it, _ := cur.value()
 			o.Post = postObs{V: it}
 		}()
 		func() {
@@ -508,7 +707,7 @@ func observe(kind string, e *Expr, limit int) (o observation) {
 					o.Repoll = "panic"
 				}
 			}()
-			o.Repoll = fmt.Sprint(c.next())
+			o.Repoll = fmt.Sprint(cur.next())
 		}()
 	}
 	return o
@@ -516,17 +715,25 @@ func observe(kind string, e *Expr, limit int) (o observation) {
 
 // forEachObs is one run of ForEach with a callback that fails on its (k+1)-th call.
 type forEachObs struct {
-	K       int    `json:"k"`
-	Visited []item `json:"visited"`
-	Err     string `json:"err"` // "same": the callback's error came back (possibly wrapped); "nil"; "other"
-	Panic   string `json:"panic"`
-	SrcOK   bool   `json:"srcok"`
+	K       int      `json:"k"`
+	Visited []item   `json:"visited"`
+	Err     string   `json:"err"` // "same": the callback's error came back (possibly wrapped); "nil"; "other"
+	Panic   string   `json:"panic"`
+	SrcOK   bool     `json:"srcok"`
+	Src     []srcObs `json:"-"`
+	Nils    int      `json:"-"`
 }
 
 type tooMany struct{}
 
-func forEach(kind string, e *Expr, k, limit int) (o forEachObs) {
-	v := &env{}
+// forEach: element type int, every source slice with len = cap.
+func forEach(kind string, e *Expr, k, limit int) forEachObs {
+	return forEachT(intCodec(), layoutExact, kind, e, k, limit)
+}
+
+func forEachT[T any](c codec[T], mode int, kind string, e *Expr, k, limit int) (o forEachObs) {
+	v := &env{mode: mode}
+	b := bld[T]{v: v, c: c}
 	o.K, o.Visited = k, []item{}
 	mine := fmt.Errorf("stop at %d", k)
 	visit := func(it item) error {
@@ -551,9 +758,9 @@ func forEach(kind string, e *Expr, k, limit int) (o forEachObs) {
 		}()
 		var err error
 		if kind == "pair" {
-			err = pair.ForEach(v.buildPair(e), func(key, x int) error { return visit(item{key, x}) })
+			err = pair.ForEach(b.pair(e), func(kt, t T) error { return visit(item{b.dec(kt), b.dec(t)}) })
 		} else {
-			err = seq.ForEach(v.buildSeq(e), func(x int) error { return visit(item{x}) })
+			err = seq.ForEach(b.seq(e), func(t T) error { return visit(item{b.dec(t)}) })
 		}
 		switch {
 		case err == nil:
@@ -565,5 +772,70 @@ func forEach(kind string, e *Expr, k, limit int) (o forEachObs) {
 		}
 	}()
 	o.SrcOK = v.sourcesIntact()
+	if !o.SrcOK {
+		o.Src = v.modified()
+	}
+	o.Nils = v.nils
 	return o
+}
+
+// ---------------------------------------------------------------------------- element-type variants
+
+// variant is one element type (with its codec) every case is executed over.
+type variant interface {
+	Name() string
+	observe(mode int, kind string, e *Expr, limit int) observation
+	forEach(mode int, kind string, e *Expr, k, limit int) forEachObs
+}
+
+type variantOf[T any] struct{ c codec[T] }
+
+func (w variantOf[T]) Name() string { return w.c.name }
+func (w variantOf[T]) observe(mode int, kind string, e *Expr, limit int) observation {
+	return observeT(w.c, mode, kind, e, limit)
+}
+func (w variantOf[T]) forEach(mode int, kind string, e *Expr, k, limit int) forEachObs {
+	return forEachT(w.c, mode, kind, e, k, limit)
+}
+
+// allVariants: int first (the only one the I-level comparisons are made for).
+func allVariants() []variant {
+	return []variant{variantOf[int]{intCodec()}, variantOf[any]{anyCodec(1)}, variantOf[any]{anyCodec(2)}, variantOf[*box]{boxCodec(1)}}
+}
+
+// codecSelfTest: enc is injective and dec its inverse on the integers the cases can contain; exactly z is nil.
+func codecSelfTest() []string {
+	bad := []string{}
+	test := func(name string, rt func(int) (int, bool), z int, hasNil bool) {
+		for x := -40; x <= 80; x++ {
+			y, isnil := rt(x)
+			if y != x {
+				bad = append(bad, fmt.Sprintf("%s: dec(enc(%d)) = %d", name, x, y))
+			}
+			if isnil != (hasNil && x == z) {
+				bad = append(bad, fmt.Sprintf("%s: enc(%d) nil = %v", name, x, isnil))
+			}
+		}
+	}
+	ic := intCodec()
+	test(ic.name, func(x int) (int, bool) { t := ic.enc(x); return ic.dec(t), ic.isNil(t) }, 0, false)
+	for _, z := range []int{0, 1, 2} {
+		ac := anyCodec(z)
+		test(ac.name, func(x int) (int, bool) { t := ac.enc(x); return ac.dec(t), ac.isNil(t) }, z, true)
+		seen := map[any]int{} // distinct integers give distinct interface values (pointers differ per call: compare what they hold)
+		for x := -40; x <= 80; x++ {
+			t := ac.enc(x)
+			key := t
+			if p, ok := t.(*box); ok {
+				key = *p
+			}
+			if y, dup := seen[key]; dup {
+				bad = append(bad, fmt.Sprintf("%s: enc(%d) = enc(%d)", ac.name, x, y))
+			}
+			seen[key] = x
+		}
+		bc := boxCodec(z)
+		test(bc.name, func(x int) (int, bool) { t := bc.enc(x); return bc.dec(t), bc.isNil(t) }, z, true)
+	}
+	return bad
 }
